@@ -305,6 +305,16 @@ func TokenizerProbes() []TProbe {
 			}
 			return "tokens " + Tokens(toks) + " comments " + Comments(t.Comments)
 		}},
+		// inputs without a single token: whatever short cut they take must leave nothing of the previous input visible
+		{"empty", tok("")},
+		{"blank", tok(" \n\t ")},
+		{"ctx-empty", func(t *tokenizer.Tokenizer) string {
+			toks, err := t.TokenizeContext(context.Background(), nil)
+			if err != nil {
+				return "error " + Err(err)
+			}
+			return "tokens " + Tokens(toks) + " comments " + Comments(t.Comments)
+		}},
 		{"dialect", func(t *tokenizer.Tokenizer) string { return string(t.Dialect()) }},
 	}
 }
